@@ -417,6 +417,8 @@ pub fn run_property<P: Property>(prop: &P, tier: Tier, seed: u64) -> RunOutcome 
                 let first_class: RefCell<Option<String>> = RefCell::new(None);
                 let last_fail: RefCell<Option<Failure>> = RefCell::new(None);
                 let strategy = prop.strategy(tier);
+                // development aid: VERIF_TRACE_WORKER=<w> runs only that worker's stream and prints every case before it is checked
+                let trace_worker: Option<usize> = std::env::var("VERIF_TRACE_WORKER").ok().and_then(|v| v.parse().ok());
                 let config = Config {
                     cases: per_worker,
                     failure_persistence: None,
@@ -434,6 +436,14 @@ pub fn run_property<P: Property>(prop: &P, tier: Tier, seed: u64) -> RunOutcome 
                         (watch.start.elapsed().as_millis() as u64).max(1),
                         Ordering::SeqCst,
                     );
+                    if let Some(only) = trace_worker {
+                        if only == w {
+                            let d = format!("{raw:?}");
+                            eprintln!("worker {w} case start {:.1}s: {}", watch.start.elapsed().as_secs_f64(), &d[..d.len().min(1500)]);
+                        } else {
+                            return Ok(());
+                        }
+                    }
                     let t_case = Instant::now();
                     let verdict = guard(|| prop.check_raw(&raw));
                     CHECK_NANOS.fetch_add(t_case.elapsed().as_nanos() as u64, Ordering::Relaxed);
